@@ -349,6 +349,15 @@ def gen_options(rng, D, prof, noise_mode):
     maybe("nonlinear_scaling", 0.1, lambda: False)
     maybe("tol_fun", 0.1, lambda: _choice(rng, [1e-2, 1e-4, 1e-6]))
     maybe("tol_stall_iters", 0.15, lambda: rng.randrange(1, 6))
+    if rng.random() < prof.get("rare_knobs", 0.0):
+        # rarely used but valid switches of the search/poll controller
+        for name, val in rng.sample([("skip_poll_after_search", False), ("consecutive_skipping", False), ("poll_training", False),
+                                     ("skip_poll", False), ("hedge_gamma", 0), ("hedge_gamma", 0.25), ("search_n_try", 1),
+                                     ("search_n_try", 2), ("fun_eval_start", 0), ("tol_stall_iters", 1), ("accelerate_mesh_steps", 1),
+                                     ("min_refit_time", 1), ("tol_poi", 0.0), ("search_grid_number", 6), ("gp_mean_percentile", 50)],
+                                    rng.randrange(1, 4)):
+            if not (name == "sloppy_improvement" and prof.get("name") == "c04"):
+                o[name] = val
     if noise_mode != "none":
         maybe("noise_final_samples", 0.6, lambda: _choice(rng, prof.get("nfs_choices", [0, 1, 1, 2, 3, 5, 10])))
     else:
